@@ -218,20 +218,88 @@ pub fn kind_banks(kind: &Kind, seed: u64) -> (u32, BankList) {
     }
 }
 
+/// Two callers use ONE built event at the same time (the accessors take `&self`; if the event type
+/// is `Sync`, sharing it between threads is legitimate use). Dispatch through auto-ref
+/// specialisation, so that the harness still compiles - and simply skips this - should the type
+/// stop being `Sync`.
+struct SharedUse<'a, T>(&'a T);
+trait SharedUseFallback {
+    fn concurrent_use(&self) -> Option<Result<(), String>>;
+}
+impl<T> SharedUseFallback for &SharedUse<'_, T> {
+    fn concurrent_use(&self) -> Option<Result<(), String>> {
+        None
+    }
+}
+trait EventLike {
+    fn n_avalanches(&self) -> usize;
+    fn has_vertex(&self) -> bool;
+}
+impl EventLike for MainEvent {
+    fn n_avalanches(&self) -> usize {
+        self.avalanches().len()
+    }
+    fn has_vertex(&self) -> bool {
+        self.vertex().is_some()
+    }
+}
+impl<T: EventLike + Sync> SharedUse<'_, T> {
+    fn concurrent_use(&self) -> Option<Result<(), String>> {
+        let ev = self.0;
+        let barrier = std::sync::Barrier::new(2);
+        let r = std::thread::scope(|sc| {
+            let spawn = |first_vertex: bool| {
+                let barrier = &barrier;
+                std::thread::Builder::new()
+                    .stack_size(64 << 20)
+                    .spawn_scoped(sc, move || {
+                        catch(|| {
+                            barrier.wait();
+                            if first_vertex {
+                                let v = ev.has_vertex();
+                                (ev.n_avalanches(), v)
+                            } else {
+                                let n = ev.n_avalanches();
+                                (n, ev.has_vertex())
+                            }
+                        })
+                    })
+                    .expect("spawn shared-use thread")
+            };
+            let (a, b) = (spawn(true), spawn(false));
+            (a.join().unwrap_or_else(|_| Err("thread died".into())), b.join().unwrap_or_else(|_| Err("thread died".into())))
+        });
+        Some(match r {
+            (Ok(x), Ok(y)) if x == y => Ok(()),
+            (Ok(x), Ok(y)) => Err(format!("two threads using one event at the same time disagree: {x:?} vs {y:?} @ shared-use:0")),
+            (Err(p), _) | (_, Err(p)) => Err(p),
+        })
+    }
+}
+
 fn reconstruct(run: u32, banks: &BankList) -> Result<(bool, usize, bool), String> {
     let placed = crate::eventgen::PlacedBanks::new(banks, banks.len());
+    let shared = banks.len() % 3 == 0;
     catch(|| match MainEvent::try_from_banks(run, placed.iter()) {
         Err(e) => {
             let _ = format!("{e}{e:?}");
-            (false, 0, false)
+            Ok((false, 0, false))
         }
         Ok(ev) => {
+            if shared {
+                // first use of the event from two threads at once (a third of the events)
+                #[allow(clippy::needless_borrow)]
+                if let Some(Err(p)) = (&SharedUse(&ev)).concurrent_use() {
+                    return Err(p);
+                }
+            }
             let _ = ev.timestamp();
             let av = ev.avalanches();
             let v = ev.vertex();
-            (true, av.len(), v.is_some())
+            Ok((true, av.len(), v.is_some()))
         }
     })
+    .and_then(|r| r)
 }
 
 fn random_kind(r: &mut Rng, tier: Tier, index: u64) -> Kind {
